@@ -169,6 +169,9 @@ func (m *Machine) Solve(query *rt.Term, vars []int64, max int) (res Result) {
 	res.STO = m.sto
 	res.VarOrder = m.VarOrder
 	res.Unsupported = m.Unsupported
+	if m.ctxTested && res.Unsupported == "" {
+		res.Unsupported = "the context argument of a built-in's error decides a unification"
+	}
 	res.Output = m.out.String()[startOut:]
 	res.Stats = m.Stats
 	return res
